@@ -26,7 +26,7 @@ import (
 )
 
 func init() {
-	register("will timer (server/server.go unregisterClient delayed-will goroutine, willMsg.signal)", willTimerFacts)
+	register("WillTimer", "will timer (server/server.go unregisterClient delayed-will goroutine, willMsg.signal)", willTimerFacts)
 }
 
 func src(fset *token.FileSet, n ast.Node) string {
